@@ -180,6 +180,8 @@ class RealRun:
     def __init__(self, inv):
         self.obs = []
         self.viol = []
+        self.refused = 0     # blocks whose __enter__ raised
+        self.shared_tape = None   # ctx "tapeR": one AdjointTape object re-entered sequentially
         self.inv = inv       # probe kind -> {class name -> handler leaf}
 
     def run(self, prog):
@@ -215,6 +217,11 @@ class RealRun:
             return FI.memoize()
         if c == "tape":
             return AdjointTape()
+        if c == "tapeR":
+            if self.shared_tape is None:
+                self.shared_tape = AdjointTape()
+            CANON.cache.pop(id(self.shared_tape), None)
+            return self.shared_tape
         if c == "subst0":
             return SubstituteInterpretation((), INTERP.get_interpretation())
         if c == "subst":
@@ -241,11 +248,17 @@ class RealRun:
                     self.substitute(p[2][2])       # the real call site: funsor.terms.substitute
                 else:
                     cm = self.make_ctx(p[1])
-                    with cm:
-                        inside = tuple(STACK)
-                        if not (len(inside) == len(before) + 1 and same(inside[:-1], before)):
-                            self.viol.append(("enter-not-a-push", CANON.stack(before), CANON.stack(inside)))
-                        self.ex(p[2])
+                    entered = False
+                    try:
+                        with cm:
+                            entered = True
+                            inside = tuple(STACK)
+                            if not (len(inside) == len(before) + 1 and same(inside[:-1], before)):
+                                self.viol.append(("enter-not-a-push", CANON.stack(before), CANON.stack(inside)))
+                            self.ex(p[2])
+                    finally:
+                        if not entered:
+                            self.refused += 1
             finally:
                 self.block_check("with-block", before)
         elif t == "deco":
